@@ -740,6 +740,10 @@ func goCode(root string, unit string) string {
 			"Actor":    {"SelectLink", "ProfilePic", "Banner"},
 		}, "pub/link.go")
 		emit("pub/post.go, pub/activity.go, pub/actor.go (link numbering and selection)", text, errs)
+	case "listing":
+		header("Model.GoSem", "Model.GoJson", "Model.GoSlices", "Model.Pub", "Model.GoPub", "Generated.GoObject")
+		text, errs := translateListing(root)
+		emit("pub/actor.go, pub/post.go, pub/common.go (the listing filters: which entry is shown as itself, which as an error item)", text, errs)
 	default:
 		b.WriteString("-- unknown unit " + unit + "\n")
 	}
